@@ -9,6 +9,7 @@ input (what `replay` accepts):
          {"k": "assign", "lhs": name, "sub": E|null, "rhs": E, "loops": [[ident, E, E]]}
        | {"k": "call", "lhs": [names], "fn": full function id, "args": [E...], "kw": {name: E}}
        | {"k": "yield", "expr": E, "time": E, "comp": str, "time_id": str}
+       | {"k": "raise"} | {"k": "fail"}          (guarded by "cond"; only their guards hold names)
   E = ["v", name] | ["c", number] | ["sub", name, E] | ["+", E, E] | ["*", E, E] | ["<", E, E]
     | ["call", full function id, [E...]] | ["not", E] | ["and", E, E]
   PRED = null (caller passes nothing) | {"only": [names]} | {"nonpersistent": true} | {"all": true}
@@ -65,7 +66,16 @@ def build_stmt(s):
     if s["k"] == "yield":
         return lang.YieldState(expression=mk(s["expr"]), time=mk(s["time"]), component_id=s["comp"],
                                time_id=s["time_id"], condition=cond, id=s["id"], depends_on=deps)
+    if s["k"] == "raise":
+        return lang.Raise(error_condition=GuardTripped, error_message="guard tripped", condition=cond, id=s["id"],
+                          depends_on=deps)
+    if s["k"] == "fail":
+        return lang.FailStep(condition=cond, id=s["id"], depends_on=deps)
     raise ValueError("bad statement kind")
+
+
+class GuardTripped(Exception):
+    pass
 
 
 def build_dag(m):
@@ -296,6 +306,8 @@ def rename_stmt(s, f, m, keep_real_idents=False, keep_real_guard=False):
         return lang.YieldState(expression=subst(s.expression, m), time=subst(s.time, m),
                                component_id=s.component_id, time_id=s.time_id, condition=cond, id=f.id,
                                depends_on=f.depends_on)
+    if isinstance(s, (lang.Raise, lang.FailStep)):
+        return s.copy(condition=cond, id=f.id, depends_on=f.depends_on)
     raise TypeError
 
 
@@ -850,6 +862,8 @@ def jrw(s):
         w.update(s["lhs"])
         for a in s["args"]:
             jnames(a, r)
+    elif s["k"] in ("raise", "fail"):
+        pass
     else:
         jnames(s["expr"], r)
         jnames(s["time"], r)
@@ -863,7 +877,7 @@ def add_deps(stmts, rng, chain):
         deps = []
         for t in stmts[:i]:
             tr, tw = jrw(t)
-            if (w & (tr | tw)) or (r & tw) or t["k"] == "yield" and s["k"] == "yield":
+            if (w & (tr | tw)) or (r & tw) or (t["k"] in ("yield", "raise", "fail") and s["k"] in ("yield", "raise", "fail")):
                 deps.append(t["id"])
         if chain and i and stmts[i - 1]["id"] not in deps:
             deps.append(stmts[i - 1]["id"])
@@ -938,6 +952,12 @@ def gen_phase(rng, who, shared_persist, idstyle, features):
         elif feat == "ivar":        # `i` as an ordinary temporary (the other method may use it as a loop identifier)
             A("i", expr(1))
             A(own_state, ["+", V("i"), V(own_state)])
+        elif feat == "sharedp":      # a persistent <p> variable that BOTH methods read (it must stay one variable)
+            A(own_state, ["+", ["*", V("<p>gain"), V("tmp")], V(own_state)])
+        elif feat in ("guardraise", "guardfail"):
+            # an error / step-rejection guard under an if_-style flag; it never holds at run time (tmp is finite)
+            A("<cond>r", ["<", V("tmp"), C(-1e30)])
+            stmts.append({"id": sid(), "k": "raise" if feat == "guardraise" else "fail", "cond": V("<cond>r")})
         elif feat == "update":
             A(own_state, expr())
         elif feat == "yield":
@@ -971,7 +991,8 @@ def gen_pair(rng, f1=None, f2=None, shared=None, pred="?", idstyle=None, two_pha
         pred = None if r < 0.5 else ({"nonpersistent": True} if r < 0.7 else
                                      ({"only": rng.sample(["tmp", "k", "a", "<cond>c", "i", "n"], 2)} if r < 0.9
                                       else {"all": True}))
-    return dict(ms, pred=pred, init={"<state>u": 1.5, "<state>v": -0.5, "<state>c": 2.0, "<p>k1": 0.25, "<p>k2": 4.0},
+    return dict(ms, pred=pred, init={"<state>u": 1.5, "<state>v": -0.5, "<state>c": 2.0, "<p>k1": 0.25, "<p>k2": 4.0,
+                                     "<p>gain": 0.75},
                 t0=rng.choice([0.0, 0.5]), dt=0.5, steps=2)
 
 
@@ -1061,6 +1082,19 @@ def bounded(payload):
                     parts["family_pairs"] += 1
                     if len(samples) < 1 and a == "flag" and b == "loop":
                         samples.append(pr)
+    # 1b. a persistent <p> variable both methods read; guarded Raise / FailStep statements (only a guard to rename)
+    extra = ["sharedp", "guardraise", "guardfail"]
+    k = 0
+    for a in extra + ["flag", "update"]:
+        for b in extra + ["flag", "update"]:
+            if a not in extra and b not in extra:
+                continue
+            for pj in (None, {"nonpersistent": True}):
+                for ids in ("s", "own"):
+                    k += 1
+                    pr = gen_pair(random.Random("extra/%d" % k), [a], [b], True, pj, ids, False)
+                    consider(pr)
+                    parts["family_shared_p_and_guarded_raise_pairs"] += 1
     # 2. seeded random tail
     for _ in range(nrand):
         if time.time() > deadline:
